@@ -8,7 +8,7 @@ src="$1"; name="$2"; prop="$3"; shift 3
 extra="$*"
 VDIR=${VDIR:-/tmp/vdev}
 export GOFLAGS=-mod=mod GOPROXY=off GOSUMDB=off GOTOOLCHAIN=local
-W=/tmp/mut-me
+W=${W:-/tmp/mut-me}
 [ -d $W ] || git -C /repo worktree add -q --detach $W HEAD
 git -C $W checkout -q --detach $(git -C /repo rev-parse HEAD) 2>/dev/null
 git -C $W checkout -- . ; git -C $W clean -fdq
